@@ -211,6 +211,8 @@ structure State where
   enums : List (EnumId × EnumCache)
   /-- attributes of the synced `global_palette` -/
   gp : List Color
+  /-- attributes of the other palettes synced with the global configuration (`P(synced=True)`, `_GSYNCED_PALETTES`) -/
+  synced : List (ClassId × List Color)
   /-- lazy results (`CHTextResult`) the program holds -/
   results : List (ResId × Res)
   /-- line iterators (`iter(result)`: suspended `gen_ch_lines` generators) the program holds -/
@@ -241,7 +243,11 @@ def snapshot (cfg : Cfg) (ci : ClassInfo) (c : Conf) : List Color :=
 /-- `set_global_colors_config` → `GlobalPalette._sync_with_config` -/
 def syncGp (cfg : Cfg) (s : State) : State :=
   match s.confs.lookup s.global, cfg.classes[cfg.gpClass]? with
-  | some c, some ci => { s with gp := snapshot cfg ci c }
+  | some c, some ci =>
+    { s with gp := snapshot cfg ci c,
+             synced := s.synced.map fun e => match cfg.classes[e.1]? with
+               | some cj => (e.1, snapshot cfg cj c)
+               | none => e }
   | _, _ => s
 
 def putConf (s : State) (k : ConfId) (c : Conf) : State :=
@@ -474,10 +480,59 @@ def newConf (cfg : Cfg) (k : ConfId) (nc : Bool) (items : SMap) (s : State) : Ex
 
 def dropConf (k : ConfId) (s : State) : State := { s with held := s.held.filter (· ≠ k) }
 
+/-- `palette._sync_with_config(conf)` registers the class of every synced palette in the new configuration -/
+def regSynced (cfg : Cfg) (k : ConfId) : List ClassId → State → State
+  | [], s => s
+  | cls :: rest, s =>
+    match s.confs.lookup k with
+    | none => s
+    | some c =>
+      match registerCls cfg cls c with
+      | .ok c' => regSynced cfg k rest (setConf cfg s k c c')
+      | .error _ => regSynced cfg k rest s
+
 /-- `set_global_colors_config(conf)` -/
 def setGlobal (cfg : Cfg) (k : ConfId) (s : State) : Except Err State := do
   let _ ← getConf s k
-  .ok (syncGp cfg { s with global := k })
+  let s1 := regSynced cfg k (s.synced.map (·.1)) s
+  .ok (syncGp cfg { s1 with global := k })
+
+/-- `PaletteClass(synced=True)`: the one palette of this class that follows the global configuration -/
+def mkSynced (cfg : Cfg) (cls : ClassId) (s : State) : Except Err State := do
+  let ci ← getClass cfg cls
+  if ci.compound then .error .assertion else
+  match s.synced.lookup cls with
+  | some _ => .ok s
+  | none =>
+    let c ← getConf s s.global
+    let c' ← registerCls cfg cls c
+    let s1 := setConf cfg s s.global c c'
+    .ok { s1 with synced := (cls, snapshot cfg ci c') :: s1.synced }
+
+/-- colours of a rendering made with the synced palette object of class `cls` (no sub-palettes, no enum cells) -/
+def syncedColor (s : State) (cls : ClassId) : Tag → Except Err Color
+  | .plain => .ok []
+  | .pal c i =>
+    if c = cls then
+      match s.synced.lookup cls with
+      | some cols => nth cols i
+      | none => .error .keyError
+    else .error .attributeError
+  | .enum _ _ _ _ => .error .attributeError
+
+def syncedChunks (s : State) (cls : ClassId) : List SChunk → Except Err (List Chunk)
+  | [] => .ok []
+  | ch :: rest => do
+    let col ← syncedColor s cls ch.tag
+    let cs ← syncedChunks s cls rest
+    .ok (⟨col, ch.text⟩ :: cs)
+
+def syncedLines (s : State) (cls : ClassId) : List SLine → Except Err (List (List Chunk))
+  | [] => .ok []
+  | l :: rest => do
+    let cs ← syncedChunks s cls l.chunks
+    let ls ← syncedLines s cls rest
+    .ok ((match l.kind with | .raw => cs | .made => mergeAdj cs) :: ls)
 
 def newEnum (e : EnumId) (s : State) : Except Err State :=
   if (s.enums.lookup e).isSome then .error .keyError else .ok { s with enums := (e, []) :: s.enums }
@@ -519,6 +574,8 @@ inductive Op where
   | nextIter (i : IterId) (n : Nat)
   /-- `PaletteClass(colors_conf=k)` called by the program itself (a palette object passed as `palette=`) -/
   | mkPal (k : ConfId) (cls : ClassId)
+  /-- `PaletteClass(synced=True)` -/
+  | mkSynced (cls : ClassId)
 
 /-- an operation that raises leaves the state as it was -/
 def step (cfg : Cfg) (alloc : Alloc) (s : State) : Op → State
@@ -534,10 +591,11 @@ def step (cfg : Cfg) (alloc : Alloc) (s : State) : Op → State
   | .mkIter i r => match mkIter i r s with | .ok s' => s' | .error _ => s
   | .nextIter i n => match nextIter cfg alloc i n s with | .ok (s', _) => s' | .error _ => s
   | .mkPal k cls => match mkPalette cfg alloc cls k false s with | .ok (s', _) => s' | .error _ => s
+  | .mkSynced cls => match mkSynced cfg cls s with | .ok s' => s' | .error _ => s
 
 def run (cfg : Cfg) (alloc : Alloc) (s : State) (ops : List Op) : State := ops.foldl (step cfg alloc) s
 
-def emptyState : State := ⟨[], [], 0, [], [], [], [], [], [], []⟩
+def emptyState : State := ⟨[], [], 0, [], [], [], [], [], [], [], []⟩
 
 /-- fresh interpreter: the global configuration (number 0) is `ColorsConfig()`, `global_palette` synced -/
 def initState (cfg : Cfg) : State :=
